@@ -114,6 +114,27 @@ class RestoreHooks(Hooks):
         return 'loop'
 
 
+def _returns_outside_prob_tests(stmts, amax):
+    """a `return` the position guard alone decides: nested `if <.. prob ..>:` blocks (the parent test itself, which the any() / guard-first
+    spellings put under the position guard) are not entered"""
+    for st in stmts:
+        if isinstance(st, ast.Return):
+            return True
+        if isinstance(st, ast.If):
+            t = U(st.test)
+            if 'prob' in t or (amax and amax in t):
+                continue
+            if _returns_outside_prob_tests(st.body + st.orelse, amax):
+                return True
+        elif isinstance(st, (ast.For, ast.While, ast.With, ast.Try)):
+            inner = list(getattr(st, 'body', [])) + list(getattr(st, 'orelse', [])) + list(getattr(st, 'finalbody', []))
+            for h in getattr(st, 'handlers', []):
+                inner += h.body
+            if _returns_outside_prob_tests(inner, amax):
+                return True
+    return False
+
+
 def restore_regions(ctx, rule):
     """(candidate region C, around region A, facts) or None."""
     qual = PG + '_recursive_restore_prob_order'
@@ -211,7 +232,7 @@ def restore_regions(ctx, rule):
         loop, pos, item, src, start = aloops[0]
         for g_ in loop.body:
             if isinstance(g_, ast.If) and 'prob' not in U(g_.test) and amax not in U(g_.test) \
-                    and any(isinstance(x, ast.Return) for b__ in g_.body + g_.orelse for x in ast.walk(b__)):
+                    and _returns_outside_prob_tests(g_.body + g_.orelse, amax):
                 ctx.bad(rule, aq, 'a position is skipped by returning: if %s: %s' % (U(g_.test)[:40], U(g_.body[-1])[:30]),
                         'a position without a parent (index 0) says nothing about the positions to its right: the loop must go on', None, g_, firm=True)
                 return None
